@@ -2,6 +2,7 @@
    Escaping half: about the table regenerated from /repo/escape/escape.go (Gen/Tables.latex_table);
    escape.LaTeX is strings.Replacer over that table = Repl.enc (tied by stream S-esc). *)
 Require Import Repl Tables EscapeProofs.
+Require MomText St Text.
 From Coq Require Import List NArith.
 Import ListNotations.
 Open Scope N_scope.
@@ -64,3 +65,12 @@ Theorem C04_tex_guards_are_the_source :
   CharSets.sets_of "latex.InlineImage" = [MBase.tex_name_bad_chars] /\ CharSets.sets_of "latex.FigureImage" = [MBase.tex_name_bad_chars; MBase.brace_chars] /\
   CharSets.sets_of "latex.checkCmd" = [MBase.tex_name_bad_chars] /\ CharSets.sets_of "mom.InlineImage" = [MBase.brace_chars].
 Proof. exact CharSets.tex_guards_are_the_source. Qed.
+
+From Coq Require Import String.
+(* On the text renderer of the model: in a LaTeX compilation, outside automatic typography, unescaping what is rendered
+   for a list of inlines gives back exactly their text (text stays inert: it is the escape of what was written) *)
+Theorem C04_model_rendered_text_decodes : forall l s, St.format s = St.runes "latex" ->
+  MBase.str_eqb (Text.lang s) (St.runes "fr") = false -> MBase.str_eqb (Text.lang s) (St.runes "en") = false ->
+  let r := fst (Text.render_text l s) in Repl.dec latex_table (List.length r) r = Some (fst (Text.inlines_text l s)).
+Proof. exact MomText.latex_rendered_text_decodes. Qed.
+Print Assumptions C04_model_rendered_text_decodes.
